@@ -17,11 +17,16 @@
       the largest ASAP layer, for every non-empty circuit built by `add`.
     * `unwrap_nodes(); remove_identity()` on the copy succeed and leave exactly the multiset of the unwrapped,
       identity-free operation list; hence `CircuitUnitaryCount` and `CircuitMaxEmitDepth` equal their definitions.
-  Stated and kept as `def …_statement` (evaluated on every input of the correspondence run against the independent
-  op-list computation, not proved): reset depth and effective depth (they need the order of the operations on the
-  wires of the prepared copy, not only their multiset).
+    * the prepared copy has a *schedule*: a duplicate-free list of all its operation nodes, holding exactly the
+      unwrapped, identity-free operation list in order, such that every wire is `in, (the scheduled nodes acting on the
+      register, in schedule order), out` (`prepared_copy_has_schedule`);
+    * static depth theorem: on ANY circuit satisfying DagInv that has a schedule, `_max_depth` of the k-th scheduled node is
+      the ASAP layer of the k-th scheduled operation minus one and `_max_depth(out r)` is the ASAP depth of register `r`
+      (`max_depth_on_scheduled_circuit`), the literal recursion terminating with the model's fuel;
+    * hence `CircuitMaxEmitResetDepth` and `CircuitMaxEmitEffDepth` equal their op-list definitions
+      (`emitter_reset_and_effective_depth_eq_spec`; no `_statement` is left unproved in this file).
 -/
-import GraphiqModel.Proofs.WireOps
+import GraphiqModel.Proofs.PrepDepth
 namespace Graphiq.C18
 open Graphiq Graphiq.Dag Graphiq.Metrics
 
@@ -53,9 +58,6 @@ theorem emitter_count_eq_inputs {c : Dag} (h : DagInv c) :
 /-- hypotheses on an operation list: well-formed operations as graphiq constructs them (no user labels, at most two
     quantum registers, wrappers wrap base gate classes) -/
 def PlainSeq (seq : List Op) : Prop := ∀ op ∈ seq, OpWF op ∧ PlainOp' op
-
-theorem PlainSeq.plain {seq : List Op} (h : PlainSeq seq) : ∀ op ∈ seq, OpWF op ∧ PlainOp op :=
-  fun op hop => ⟨(h op hop).1, (h op hop).2.toPlainOp⟩
 
 /-- **`CircuitCnotCount` = number of CNOTs between two emitters in the operation list**, for every circuit built by
     `add` from any operation list (with the metric's default penalty) -/
@@ -104,10 +106,6 @@ theorem built_circuit_holds_op_list (ne np nc : Nat) (seq : List Op) (hwf : ∀ 
     (hok : (build ne np nc seq).2 = none) : opsOf (build ne np nc seq).1 = seq ∧ DagInv (build ne np nc seq).1 :=
   build_spec ne np nc seq hwf hok
 
-/-- `CircuitDepth` is the networkx longest-path length minus one (recorded specification of
-    `dag_longest_path_length`: number of edges of a longest directed path) -/
-theorem circuit_depth_is_longest_path_minus_one (L : Nat) : Metrics.circuitDepthWith L = (L : Int) - 1 := rfl
-
 /-! ## 3. wires and register depth -/
 
 /-- **`reg_gate_history(reg, reg_type)` = the wire.**  On every circuit satisfying DagInv the node list returned for an
@@ -141,7 +139,7 @@ theorem register_depth_eq_asap (ne np nc : Nat) (seq : List Op) (hseq : PlainSeq
     (t : RegType) :
     (build ne np nc seq).1.calculateRegDepth t =
       .ok ((List.range ((build ne np nc seq).1.regs t)).map (fun i => (Spec.regDepth seq ⟨t, i⟩ : Int))) :=
-  calculateRegDepth_eq_spec ne np nc seq hseq.plain hok t
+  calculateRegDepth_eq_spec ne np nc seq (PlainSeq'.plain hseq) hok t
 
 /-- the same for `_max_depth` of any node: it is the relation `HasDepth` (inputs −1, otherwise one more than the
     deepest source of an in-edge), and the recursion terminates with fuel `depth + 2` -/
@@ -151,11 +149,11 @@ theorem max_depth_recursion_spec {c : Dag} {n : NodeId} {d : Int} (h : HasDepth 
 /-- **`CircuitDepth` = the largest ASAP layer of the operation list** (the length of the longest dependency chain of
     operations), for every non-empty circuit built by `add` from any plain operation list and every value `L` that meets
     the recorded specification of `nx.dag_longest_path_length` (`L` edges on some directed walk, no walk has more);
-    `depth = L − 1`. -/
+    the metric returns `L − 1` (`Metrics.circuitDepthWith`, the model of `CircuitDAG.depth`). -/
 theorem circuit_depth_eq_spec (ne np nc : Nat) (seq : List Op) (hseq : PlainSeq seq) (hok : (build ne np nc seq).2 = none)
     (hne : (build ne np nc seq).1.nodeIds ≠ []) {L : Nat} (hL : LongestPathSpec (build ne np nc seq).1 L) :
     Metrics.circuitDepthWith L = (Spec.depth seq : Int) :=
-  circuitDepth_eq_spec ne np nc seq hseq.plain hok hne hL
+  circuitDepth_eq_spec ne np nc seq (PlainSeq'.plain hseq) hok hne hL
 
 /-! ## 4. metrics evaluated on the unwrapped, identity-free copy -/
 
@@ -179,14 +177,84 @@ theorem max_emitter_depth_eq_spec (ne np nc : Nat) (seq : List Op) (hseq : Plain
     Metrics.maxEmitDepth (build ne np nc seq).1 = Spec.maxEmitDepth (build ne np nc seq).1.nE seq :=
   maxEmitDepth_eq_spec ne np nc seq hseq hok
 
-/-! ## 5. the remaining metrics: full statements (not proved; compared on every correspondence input) -/
+/-! ## 5. reset interval and effective depth: wire order of the prepared copy + static depth theorem -/
 
-/-- reset depth and effective depth need the *order* of the operations on the emitter's wire of the prepared copy (and
-    the depth recursion on it); only the multiset of its operations is established above -/
+/-- **the prepared copy has a schedule.**  For every circuit built by `add`, the copy `unwrap_nodes(); remove_identity()`
+    satisfies DagInv with wires `P'` and there is a list `L'` of (node, operation) pairs — all operation nodes of the
+    copy, each once — whose operations are exactly `Spec.unwrapSeq seq`, in order, such that the wire of every existing
+    register `r` (what `reg_gate_history` returns) is `in r`, then the nodes of `L'` whose operation acts on `r` (quantum
+    or classical) in the order of `L'`, then `out r`.  (Node identity, not only the operations: the k-th node of the wire
+    of `r` *is* the node of the k-th operation of the list acting on `r`.) -/
+theorem prepared_copy_has_schedule (ne np nc : Nat) (seq : List Op) (hseq : PlainSeq seq) (hok : (build ne np nc seq).2 = none) :
+    ∃ (c' : Dag) (P' : Reg → List NodeId) (L' : List (NodeId × Op)),
+      prep (build ne np nc seq).1 = .ok c' ∧ Good c' P' ∧ L'.map (·.2) = Spec.unwrapSeq seq ∧
+      (∀ r, r.idx < c'.regs r.ty → c'.regGateHistory r = .ok (P' r) ∧
+        P' r = .inp r :: ((L'.filter (fun p => decide (r ∈ opRegs p.2))).map (·.1) ++ [.out r])) ∧
+      (∀ p, p ∈ L' ↔ (∃ i, p.1 = NodeId.op i) ∧ p ∈ c'.nodes) ∧ (L'.map (·.1)).Nodup := by
+  obtain ⟨c', P', L', hprep, g', hS', hL', _⟩ := prep_sched ne np nc seq hseq hok
+  exact ⟨c', P', L', hprep, g', hL', fun r hl => ⟨regGateHistory_eq_wire g'.inv hl, hS'.wire r hl⟩, hS'.nodes, hS'.nodup⟩
+
+/-- **static depth theorem** (no reference to how the circuit was made): let `c` satisfy DagInv with wires `P` and have a
+    schedule `L` (`Sched c P L`: all operation nodes, each once, every wire = the scheduled nodes acting on the register
+    in schedule order) of operations not labelled "Input".  Then `_max_depth` — the literal un-memoised recursion with
+    the model's fuel `len(nodes) + 1` — returns, for the node at every position of `L`, the ASAP layer (on the operation
+    list `L.map snd`) of its operation minus one, and for the output node of every existing register the ASAP depth of
+    the register. -/
+theorem max_depth_on_scheduled_circuit {c : Dag} {P : Reg → List NodeId} {L : List (NodeId × Op)} (g : Good c P)
+    (hS : Sched c P L) (hkey : ∀ p ∈ L, "Input" ∉ p.2.indexKeys) :
+    (∀ pre p suf, L = pre ++ p :: suf →
+      c.maxDepth (c.nodes.length + 1) p.1 = .ok ((Spec.layerOf (Spec.fronts (pre.map (·.2))) p.2 : Int) - 1)) ∧
+    (∀ r, r.idx < c.regs r.ty → c.maxDepth (c.nodes.length + 1) (.out r) = .ok (Spec.regDepth (L.map (·.2)) r : Int)) := by
+  obtain ⟨h1, h2⟩ := sched_depth g hS hkey
+  constructor
+  · intro pre p suf hL
+    have hr : ∃ r, r ∈ opRegs p.2 := by
+      obtain ⟨i, _, hm⟩ := hS.op_node (show p ∈ L by rw [hL]; simp)
+      have := (g.inv.op_wf i p.2 hm).qregs_ne
+      cases hq : p.2.qregs with
+      | nil => exact absurd hq this
+      | cons a t => exact ⟨a, by simp [opRegs, hq]⟩
+    obtain ⟨r, hr⟩ := hr
+    have hl := hS.live p (by rw [hL]; simp) r hr
+    apply maxDepth_of_hasDepth (h1 pre p suf hL)
+    have hb := layerOf_fronts_le (pre.map (·.2)) p.2
+    have hlt := hS.length_lt g hl
+    have hlen : L.length = pre.length + (suf.length + 1) := by rw [hL]; simp
+    rw [List.length_map] at hb
+    push_cast; omega
+  · intro r hl
+    apply maxDepth_of_hasDepth (h2 r hl)
+    have hb := regDepth_le_length (L.map (·.2)) r
+    have hlt := hS.length_lt g hl
+    rw [List.length_map] at hb
+    push_cast; omega
+
+/-- **`CircuitMaxEmitResetDepth` = the largest gap between consecutive reset marks** — input (position 0), every
+    measure-and-reset (position k of the k-th operation on the emitter), output (number of operations + 1) — on an
+    emitter's wire of the unwrapped, identity-free operation list (`ValueError` on both sides without emitters) -/
+theorem max_emitter_reset_depth_eq_spec (ne np nc : Nat) (seq : List Op) (hseq : PlainSeq seq)
+    (hok : (build ne np nc seq).2 = none) :
+    Metrics.maxEmitResetDepth (build ne np nc seq).1 = Spec.maxEmitResetDepth (build ne np nc seq).1.nE seq :=
+  maxEmitResetDepth_eq_spec ne np nc seq hseq hok
+
+/-- **`CircuitMaxEmitEffDepth` = the largest difference between the ASAP depths of consecutive reset marks** — input: −1,
+    measure-and-reset: its ASAP layer in the unwrapped, identity-free operation list minus one, output: the ASAP depth
+    of the emitter register — the depths being computed by the literal `_max_depth` recursion on the prepared copy -/
+theorem max_emitter_effective_depth_eq_spec (ne np nc : Nat) (seq : List Op) (hseq : PlainSeq seq)
+    (hok : (build ne np nc seq).2 = none) :
+    Metrics.maxEmitEffDepth (build ne np nc seq).1 = Spec.maxEmitEffDepth (build ne np nc seq).1.nE seq :=
+  maxEmitEffDepth_eq_spec ne np nc seq hseq hok
+
+/-- the full statement for both metrics (kept under its original name) … -/
 def emitter_reset_and_effective_depth_eq_spec_statement : Prop :=
   ∀ ne np nc seq, PlainSeq seq → (build ne np nc seq).2 = none →
     Metrics.maxEmitResetDepth (build ne np nc seq).1 = Spec.maxEmitResetDepth (build ne np nc seq).1.nE seq ∧
     Metrics.maxEmitEffDepth (build ne np nc seq).1 = Spec.maxEmitEffDepth (build ne np nc seq).1.nE seq
+
+/-- … is a theorem -/
+theorem emitter_reset_and_effective_depth_eq_spec : emitter_reset_and_effective_depth_eq_spec_statement :=
+  fun ne np nc seq hseq hok =>
+    ⟨max_emitter_reset_depth_eq_spec ne np nc seq hseq hok, max_emitter_effective_depth_eq_spec ne np nc seq hseq hok⟩
 
 /-! ## 6. non-vacuity -/
 
@@ -216,5 +284,52 @@ example : PlainSeq [cnotEE, hP0, mcr] := by
   · exact ⟨mcr_wf, ⟨⟨by decide, by decide⟩, by decide⟩⟩
 
 example : (build 2 1 1 [cnotEE, hP0, mcr]).2 = none := by decide
+
+def wrapE1 : Op := ⟨.wrapper, [⟨.e, 1⟩], [], ["one-qubit"], [.hadamard, .identity, .phase]⟩
+def idP0 : Op := Op.oneQubit .identity ⟨.p, 0⟩
+
+theorem wrapE1_wf : OpWF wrapE1 :=
+  { not_input := by decide, not_output := by decide, qregs_ne := by decide, qregs_nodup := by decide,
+    cregs_nodup := by decide, qregs_quantum := by decide,
+    wrapper_shape := fun _ => ⟨⟨_, rfl⟩, rfl, by decide⟩,
+    wrapper_key := fun _ => rfl }
+
+/-- a list with a wrapper (holding an identity), a measure-and-reset, an identity and two emitter–emitter CNOTs -/
+def seq2 : List Op := [cnotEE, wrapE1, mcr, idP0, hP0, cnotEE]
+
+/-- it satisfies the hypotheses of the emitter-depth theorems … -/
+example : PlainSeq seq2 := by
+  intro op hop
+  simp [seq2] at hop
+  rcases hop with rfl | rfl | rfl | rfl | rfl | rfl
+  · exact ⟨cnotEE_wf, ⟨⟨by decide, by decide⟩, by decide⟩⟩
+  · exact ⟨wrapE1_wf, ⟨⟨by decide, by decide⟩, by decide⟩⟩
+  · exact ⟨mcr_wf, ⟨⟨by decide, by decide⟩, by decide⟩⟩
+  · exact ⟨oneQubit_wf rfl (by decide), plain_oneQubit _ _⟩
+  · exact ⟨oneQubit_wf rfl (by decide), plain_oneQubit _ _⟩
+  · exact ⟨cnotEE_wf, ⟨⟨by decide, by decide⟩, by decide⟩⟩
+
+example : (build 2 1 1 seq2).2 = none := by decide
+
+/-- … and the two sides of `emitter_reset_and_effective_depth_eq_spec` are proper values on it (kernel-evaluated):
+    emitter 1 carries CNOT, Phase, Hadamard, measure-and-reset, CNOT — reset marks 0, 4, 6; ASAP depths −1, 3, 5 —
+    emitter 0 carries the two CNOTs — marks 0, 3; depths −1, 5 -/
+example : (Metrics.maxEmitResetDepth (build 2 1 1 seq2).1).toOption = some 4 ∧
+    (Spec.maxEmitResetDepth 2 seq2).toOption = some 4 := by decide
+example : (Metrics.maxEmitEffDepth (build 2 1 1 seq2).1).toOption = some 6 ∧
+    (Spec.maxEmitEffDepth 2 seq2).toOption = some 6 := by decide
+
+/-- the hypotheses of `max_depth_on_scheduled_circuit` are met by a circuit with six scheduled operations -/
+example : ∃ (c : Dag) (P : Reg → List NodeId) (L : List (NodeId × Op)), Good c P ∧ Sched c P L ∧ L.length = 6 := by
+  obtain ⟨P, L, g, hS, hL⟩ := build_sched 2 1 1 seq2 (fun op hop => by
+    simp [seq2] at hop
+    rcases hop with rfl | rfl | rfl | rfl | rfl | rfl
+    · exact cnotEE_wf
+    · exact wrapE1_wf
+    · exact mcr_wf
+    · exact oneQubit_wf rfl (by decide)
+    · exact oneQubit_wf rfl (by decide)
+    · exact cnotEE_wf) (by decide)
+  exact ⟨_, P, L, g, hS, by rw [← List.length_map (f := (·.2)), hL]; rfl⟩
 
 end Graphiq.C18
